@@ -12,7 +12,7 @@ from harness.common import REPO, VERIF
 
 GEN = VERIF / "lean" / "XonshVerif" / "Generated"
 FILES = ["tokenize.py", "tokenizer.py", "subheader.py"]
-IMMUTABLE_CALLS = {"frozenset", "tuple", "str", "int", "float", "bool", "TypeVar", "NewType", "group", "choice", "maybe", "capname", "_all_string_prefixes"}
+IMMUTABLE_CALLS = {"auto", "frozenset", "tuple", "str", "int", "float", "bool", "TypeVar", "NewType", "group", "choice", "maybe", "capname", "_all_string_prefixes"}
 
 
 def is_mutable_value(v):
